@@ -264,6 +264,119 @@ def runOpsFrom (fuel : Nat) : Nat → Pairs → List Op → Except (Nat × Exc) 
 def runOps (fuel : Nat) (root : Pairs) (ops : List Op) : Except (Nat × Exc) Pairs :=
   runOpsFrom fuel 0 root ops
 
+/-! ### What a FAILED operation leaves behind; sequences that go on after a failure
+
+  `merge_recurse` / `defaults_recurse` write `current` entry by entry; an exception ends the walk where it is.
+  A step with `swallow: True`, the retry decorator, a failure handler or a `while` loop then runs further
+  operations on the context AS THE FAILED ONE LEFT IT. What is left: every entry before the failing one is
+  written; the failing entry itself has written nothing — every write of one entry is the LAST thing the entry
+  does (`current[k] = formatted`, `current[k].extend(formatted list)`: the value is formatted as a whole
+  first) — unless it is mapping × mapping, where the sub-mapping is left as ITS failed walk left it.
+  The `…S` functions return that state next to the exception; `Props/C10.lean` (section "failed
+  operations") proves they agree with the `Except` functions above and that the state left is exactly a
+  SUCCESSFUL merge of a truncation of the incoming tree. -/
+
+abbrev Rec := (Pairs → Pairs) → Pairs → Pairs → Except Exc (Pairs × Trace)
+abbrev RecS := (Pairs → Pairs) → Pairs → Pairs → Pairs × Option Exc
+/-- `mergeItem fmt` / `defaultsItem fmt` -/
+abbrev Item := Rec → (Pairs → Pairs) → Pairs → Val → Val → Except Exc (Pairs × Trace)
+
+/-- The entry `(k, v)` DESCENDS: its key formats to a hashable `fk`, `current[fk]` is a mapping `csub` and `v`
+    is a mapping `sub` (`merge_recurse(current[k], v)` / `defaults_recurse(current[k], v)`). -/
+def descends (fmt : Fmt) (rebuild : Pairs → Pairs) (cur : Pairs) (k v : Val) : Option (Val × Pairs × Pairs) :=
+  match fmt (ctxOf (rebuild cur)) k with
+  | .error _ => none
+  | .ok fk =>
+    if !hashable fk then none
+    else match dictGet? cur fk, v with
+      | some (.dict csub), .dict sub => some (fk, csub, sub)
+      | _, _ => none
+
+/-- the loop with the state it ends in: normally (`none`) or by the first exception -/
+def foldItemsS (step : Pairs → Val → Val → Pairs × Option Exc) : Pairs → Pairs → Pairs × Option Exc
+  | cur, [] => (cur, none)
+  | cur, (k, v) :: rest =>
+    match step cur k v with
+    | (cur1, some e) => (cur1, some e)
+    | (cur1, none) => foldItemsS step cur1 rest
+
+/-- one entry with the state it leaves: a failing entry leaves `current` as it was, except that a descending one
+    leaves `current[k]` as the failed walk of the sub-mapping left it -/
+def itemS (fmt : Fmt) (item : Item) (recur : Rec) (recurS : RecS) (rebuild : Pairs → Pairs) (cur : Pairs)
+    (k v : Val) : Pairs × Option Exc :=
+  match item recur rebuild cur k v with
+  | .ok (cur', _) => (cur', none)
+  | .error e =>
+    match descends fmt rebuild cur k v with
+    | some (fk, csub, sub) =>
+      (dictSet cur fk (.dict (recurS (fun s => rebuild (dictSet cur fk (.dict s))) csub sub).1), some e)
+    | none => (cur, some e)
+
+/-- the recursion of `mergeRec` / `defaultsRec` over an abstract loop body -/
+def genRec (item : Item) : Nat → Rec
+  | 0, _, _, _ => .error outOfFuel
+  | fuel + 1, rebuild, cur, add => foldItems (item (genRec item fuel) rebuild) cur add
+
+def genRecS (fmt : Fmt) (item : Item) : Nat → RecS
+  | 0, _, cur, _ => (cur, some outOfFuel)
+  | fuel + 1, rebuild, cur, add =>
+    foldItemsS (itemS fmt item (genRec item fuel) (genRecS fmt item fuel) rebuild) cur add
+
+/-- `merge_recurse` with the state it leaves -/
+def mergeRecS (fmt : Fmt) : Nat → RecS := genRecS fmt (mergeItem fmt)
+/-- `defaults_recurse` with the state it leaves -/
+def defaultsRecS (fmt : Fmt) : Nat → RecS := genRecS fmt (defaultsItem fmt)
+
+/-- the context a failed (or successful) `Context.merge(add)` leaves -/
+def mergeLeft (fuel : Nat) (root : Pairs) : Val → Pairs
+  | .dict kvs => (mergeRecS (fmtVal fuel) fuel id root kvs).1
+  | _ => root
+
+/-- the context a failed (or successful) `Context.set_defaults(add)` leaves -/
+def defaultsLeft (fuel : Nat) (root : Pairs) : Val → Pairs
+  | .dict kvs => (defaultsRecS (fmtVal fuel) fuel id root kvs).1
+  | _ => root
+
+/-- one operation with the context it leaves, failed or not -/
+def runOpS (fuel : Nat) (root : Pairs) : Op → Pairs × Option Exc
+  | .merge add =>
+    match merge fuel root add with
+    | .ok (r, _) => (r, none)
+    | .error e => (mergeLeft fuel root add, some e)
+  | .defaults add =>
+    match setDefaults fuel root add with
+    | .ok (r, _) => (r, none)
+    | .error e => (defaultsLeft fuel root add, some e)
+  | .step d add =>
+    let root0 := withInput root d add
+    match runStep d fuel root0 with
+    | .ok r => (r, none)
+    | .error e =>
+      let caller := if d then "pypyr.steps.default" else "pypyr.steps.contextmerge"
+      match assertKeyHasValue root0 (stepKey d) caller with
+      | .error _ => (root0, some e)
+      | .ok a => ((if d then defaultsLeft fuel root0 a else mergeLeft fuel root0 a), some e)
+
+/-- may a failed operation be followed by further ones in the model? (not when the model itself gave up) -/
+def swallowable (e : Exc) : Bool := e.name != "OutOfFuel" && e.name != "OutOfDomain"
+
+/-- Operations in order on one context; an operation flagged `true` (`swallow`) that fails is recorded
+    (index, exception) and the sequence GOES ON with the context it left; an unflagged failure ends it. -/
+def runOpsSFrom (fuel : Nat) : Nat → Pairs → List (Op × Bool) → Except (Nat × Exc) (Pairs × List (Nat × Exc))
+  | _, root, [] => .ok (root, [])
+  | i, root, (op, sw) :: rest =>
+    match runOpS fuel root op with
+    | (root1, none) => runOpsSFrom fuel (i + 1) root1 rest
+    | (root1, some e) =>
+      if sw && swallowable e then
+        match runOpsSFrom fuel (i + 1) root1 rest with
+        | .error x => .error x
+        | .ok (r, errs) => .ok (r, (i, e) :: errs)
+      else .error (i, e)
+
+def runOpsS (fuel : Nat) (root : Pairs) (ops : List (Op × Bool)) : Except (Nat × Exc) (Pairs × List (Nat × Exc)) :=
+  runOpsSFrom fuel 0 root ops
+
 end Pypyr.Merge
 
 /-!
